@@ -26,53 +26,69 @@ def decompose (bits : UInt32) : Nat × Int × Bool :=
   if ex == 0 then (frac, -149, false)
   else (frac + 0x800000, (ex : Int) - 150, frac == 0 && ex > 1)
 
-/-- Is the decimal `d * 10^k10` (d Nat, k10 Int) inside the rounding interval of m*2^e ? -/
-def inInterval (m : Nat) (e : Int) (lowerClose : Bool) (d : Nat) (k10 : Int) : Bool :=
-  -- compare d*10^k10 with (4m ± δ) * 2^(e-2), δ = 2 (or 1 below a power of two)
-  let lo4 : Nat := 4 * m - (if lowerClose then 1 else 2)
-  let hi4 : Nat := 4 * m + 2
-  let e2 : Int := e - 2
-  -- bring both sides to naturals: multiply by 10^max(0,-k10) * 2^max(0,-e2)
-  let lhs : Nat := d * (if k10 ≥ 0 then 10 ^ k10.toNat else 1) * (if e2 < 0 then 2 ^ (-e2).toNat else 1)
-  let scale : Nat := (if k10 < 0 then 10 ^ (-k10).toNat else 1) * (if e2 ≥ 0 then 2 ^ e2.toNat else 1)
-  let lo := lo4 * scale
-  let hi := hi4 * scale
-  let even := m % 2 == 0
-  (if even then lo ≤ lhs else lo < lhs) && (if even then lhs ≤ hi else lhs < hi)
+/-- Digit generation of the shortest representation (Steele & White / Dragon4, as
+    `core::num::flt2dec::strategy::dragon::format_shortest`): `r / s` is the remaining fraction,
+    `mp` / `mm` the distances to the upper / lower neighbour's midpoint, all scaled alike;
+    `incl`: the interval includes its end points (even mantissa).  Returns the digits (most significant
+    first). -/
+def genDigits (incl : Bool) : Nat → Nat → Nat → Nat → Nat → List Nat → List Nat
+  | 0, _, _, _, _, acc => acc.reverse
+  | fuel + 1, r, s, mp, mm, acc =>
+    let d := (r * 10) / s
+    let r := (r * 10) % s
+    let mp := mp * 10
+    let mm := mm * 10
+    let down : Bool := if incl then r ≤ mm else r < mm
+    let up : Bool := if incl then r + mp ≥ s else r + mp > s
+    if !down && !up then genDigits incl fuel r s mp mm (d :: acc)
+    else
+      let roundUp : Bool := up && (!down || 2 * r ≥ s)
+      ((if roundUp then d + 1 else d) :: acc).reverse
 
-/-- Round num/den to nearest natural, ties to even. -/
-def roundDiv (num den : Nat) : Nat :=
-  let q := num / den
-  let r := num % den
-  if 2 * r < den then q else if 2 * r > den then q + 1 else (if q % 2 == 0 then q else q + 1)
+/-- Propagate a final digit of 10 (a round-up of 9); returns the digits and whether the number grew
+    by one decimal position. -/
+def carry (ds : List Nat) : List Nat × Bool :=
+  let rec go : List Nat → Nat → List Nat × Nat
+    | [], c => ([], c)
+    | d :: rest, _ =>
+      let (rest', c) := go rest 0
+      let v := d + c
+      if v ≥ 10 then ((v - 10) :: rest', 1) else (v :: rest', 0)
+  match go ds 0 with
+  | (ds', 1) => (1 :: ds', true)
+  | (ds', _) => (ds', false)
 
-/-- Shortest decimal (digits, exponent k10 with value = digits * 10^k10) that round-trips. -/
-def shortest (m : Nat) (e : Int) (lowerClose : Bool) : Nat × Int := Id.run do
-  -- value = m * 2^e = num / den
-  let num : Nat := if e ≥ 0 then m * 2 ^ e.toNat else m
-  let den : Nat := if e ≥ 0 then 1 else 2 ^ (-e).toNat
-  -- decimal magnitude: smallest k with value < 10^k
-  let mut k : Int := 0
-  -- find k by scanning (value is between 1e-45 and 3.4e38)
-  let mut found := false
-  for kk in [0:90] do
-    if !found then
-      let kc : Int := (kk : Int) - 46
-      let lt : Bool := if kc ≥ 0 then num < den * 10 ^ kc.toNat else num * 10 ^ (-kc).toNat < den
-      if lt then
-        k := kc
-        found := true
-  let mut best : Nat × Int := (0, 0)
-  let mut done := false
-  for p in [1:18] do
-    if !done then
-      -- p significant digits: d = round(value * 10^(p-k))
-      let s : Int := (p : Int) - k
-      let d := if s ≥ 0 then roundDiv (num * 10 ^ s.toNat) den else roundDiv num (den * 10 ^ (-s).toNat)
-      if inInterval m e lowerClose d (-s) then
-        best := (d, -s)
-        done := true
-  return best
+/-- Shortest decimal (digits as a number, exponent k10 with value = digits * 10^k10) that round-trips. -/
+def shortest (m : Nat) (e : Int) (lowerClose : Bool) : Nat × Int :=
+  let incl := m % 2 == 0
+  -- value = m * 2^e; r / s = value, mp / s = half the gap above, mm / s = half the gap below
+  let (r0, s0, mp0, mm0) : Nat × Nat × Nat × Nat :=
+    if e ≥ 0 then
+      let be := 2 ^ e.toNat
+      if lowerClose then (m * be * 4, 4, be * 2, be) else (m * be * 2, 2, be, be)
+    else
+      let den := 2 ^ (-e).toNat
+      if lowerClose then (m * 4, den * 4, 2, 1) else (m * 2, den * 2, 1, 1)
+  -- k = the smallest integer with (r + mp) / s ≤ 10^k (< when the interval is open)
+  let fits (k : Int) : Bool :=
+    let lhs := (r0 + mp0) * (if k < 0 then 10 ^ (-k).toNat else 1)
+    let rhs := s0 * (if k ≥ 0 then 10 ^ k.toNat else 1)
+    if incl then lhs < rhs else lhs ≤ rhs
+  let k : Int := Id.run do
+    let mut k : Int := 40
+    for i in [0:90] do
+      let kc : Int := 40 - (i : Int)
+      if fits kc then k := kc
+    return k
+  -- scale so that the first generated digit is the one at 10^(k-1)
+  let (r, s, mp, mm) : Nat × Nat × Nat × Nat :=
+    if k ≥ 0 then (r0, s0 * 10 ^ k.toNat, mp0, mm0)
+    else (r0 * 10 ^ (-k).toNat, s0, mp0 * 10 ^ (-k).toNat, mm0 * 10 ^ (-k).toNat)
+  let ds0 := genDigits incl 60 r s mp mm []
+  let (ds, grew) := carry ds0
+  let n := ds.foldl (fun a d => a * 10 + d) 0
+  -- value ≈ 0.d1 d2 … × 10^k  (one more position when the carry grew the number)
+  (n, k + (if grew then 1 else 0) - (ds.length : Int))
 
 def stripZeros (d : Nat) (k10 : Int) (fuel : Nat) : Nat × Int :=
   match fuel with
